@@ -576,6 +576,10 @@ def _eval_reg_predicate(F, path, regnum, tn, classes, depth=0):
     me = num2var[regnum]
     f = F.fn(path)
     env = {}
+    for p_ in (f["hir"].get("params") or []):
+        # a free predicate `fn is_xxx(reg: Register) -> bool`: its parameter is the register asked about
+        if p_.get("k") == "PBinding" and p_.get("name") != "self" and (p_.get("ty") or "").lstrip("&") == REG:
+            env[p_["name"]] = ("reg", me)
 
     def strip(e):
         e = peel(e)
@@ -754,3 +758,25 @@ def c14g(F, R):
             R.ok(name, detail=f"Register::{name} = {wname} = {sorted(got)}", where=sp)
         else:
             R.bad(name, f"Register::{name} holds for {sorted(got)}, but {wname} is {sorted(want)} (missing {sorted(want - got)}, extra {sorted(got - want)}): the lints that ask the predicate treat x{sorted(want ^ got)[0]} differently from the rest of its class", sp)
+    # free predicates over a register anywhere else in the two crates (a lint's private `fn is_saved(reg: Register) -> bool`):
+    # a second, local encoding of a class. What C14 needs of it is that it does not split the temporaries or the saved registers
+    T, S = set(ref["classes"]["temporary"]), set(ref["classes"]["saved"])
+    mine = {pth for _, pth in preds}
+    for q, g in sorted(F.fns.items()):
+        if q in mine or "hir" not in g or g.get("ret_ty") != "bool" or g.get("def_kind") not in ("Fn", "AssocFn") or "{closure" in q:
+            continue
+        if [t.lstrip("&") for t in (g.get("param_tys") or [])] != [REG] or "::test" in q or (g.get("exp") or "").startswith("Derive"):
+            continue
+        if (g["hir"].get("params") or [{}])[0].get("name") == "self":
+            continue
+        nm = short(q)
+        try:
+            got = {n for n in range(32) if _eval_reg_predicate(F, q, n, tn, classes)}
+        except (_PUnx, KeyError, TypeError) as ex:
+            R.bad(f"free|{nm}|unextractable", f"UNEXTRACTABLE: cannot evaluate the register predicate `{q}` on every register: {ex}", g["sp"])
+            continue
+        split = [(cn, sorted(c - got)) for cn, c in (("temporaries", T), ("saved", S)) if got & c and c - got]
+        if split:
+            R.bad(f"free|{nm}|splits-{split[0][0]}", f"`{q}` holds for some {split[0][0]} registers but not for x{split[0][1]}: code that asks it treats registers of one class differently, so a permutation inside the class changes more than the names", g["sp"])
+        else:
+            R.ok(f"free|{nm}", detail=f"`{q}` = {sorted(got)} does not split the temporaries or the saved registers", where=g["sp"])
